@@ -510,12 +510,15 @@ Section Exact.
      deflation test (splitMatrix gives q = 2 at once); then the block loop, unless the sub-diagonal
      entry is zero or the eigenvalues are complex. *)
   Definition four : A := (one N + one N) * (one N + one N).
+  Definition qr_deflate (eps : A) (h : blk) : blk :=
+    if leb N (nabs N (b21 h)) (eps * (nabs N (b11 h) + nabs N (b22 h)))
+    then mkblk (b11 h) (b12 h) (zero N) (b22 h) else h.
+  Definition qr_skip (h : blk) : bool :=
+    eqb N (b21 h) (zero N)
+    || ltb N ((b11 h - b22 h) * (b11 h - b22 h) + four * b12 h * b21 h) (zero N).
   Definition qr_run2 (eps : A) (fuel : nat) (h : blk) : lres blk blk :=
-    let h1 := if leb N (nabs N (b21 h)) (eps * (nabs N (b11 h) + nabs N (b22 h)))
-              then mkblk (b11 h) (b12 h) (zero N) (b22 h) else h in
-    if eqb N (b21 h1) (zero N) then Done h1 0
-    else if ltb N ((b11 h1 - b22 h1) * (b11 h1 - b22 h1) + four * b12 h1 * b21 h1) (zero N) then Done h1 0
-    else uncapped (qr_block_step eps) fuel 0 h1.
+    if qr_skip (qr_deflate eps h) then Done (qr_deflate eps h) 0
+    else uncapped (qr_block_step eps) fuel 0 (qr_deflate eps h).
 
   (* Denman–Beavers mSqrt on a 1x1 matrix [a]: state (Y0, Y1, Z0, Z1); the inverse of a
      1x1 matrix is 1/x (Gauss-Jordan), a zero pivot ends the run with an error. *)
